@@ -1,5 +1,6 @@
 import BctVerif.Lemmas.SynthRing
 import BctVerif.Lemmas.SynthHier
+import BctVerif.Lemmas.SynthProfile
 import BctVerif.Lemmas.SynthDegSpec
 
 /-!
@@ -100,6 +101,25 @@ theorem even_total (n mx k szcl : Nat) (hmx : 1 ≤ mx) (hn : n = 2 ^ mx) :
 /-- the template of the doubling loop has an empty diagonal after `CIJ -= ones + mx_lvl * eye` -/
 theorem template_diag (n mx : Nat) (i : Fin n) : (hierT n mx).toFun i i = 0 := hierT_diag mx i
 
+/-- hierarchical block structure: for n = 2^mx the cluster mask `template >= mx_lvl - sz_cl` (sz_cl ≤ mx) consists exactly of
+the off-diagonal cells of the diagonal blocks of size 2^sz_cl — the clusters have 2^sz_cl nodes each -/
+theorem cluster_mask_blocks (n mx szcl : Nat) (hmx : 1 ≤ mx) (hn : n = 2 ^ mx) (hsz : szcl ≤ mx) (i j : Fin n) :
+    inCluster (hierT n mx) mx szcl (i, j) = true ↔ i ≠ j ∧ i.val / 2 ^ szcl = j.val / 2 ^ szcl := by
+  obtain ⟨m, rfl⟩ : ∃ m, mx = m + 1 := ⟨mx - 1, by omega⟩
+  have hT : hierT n (m + 1) = hierTemplate hn := by simp [hierT, hn]
+  rw [hT]; exact cluster_blocks hn szcl hsz i j
+
+/-- `makeevenCIJ` end to end: N = 2^mx, sz_cl ≤ mx, feasible K, any permutation draw: a 0/1 matrix with empty diagonal and
+exactly K ones in which every pair of distinct nodes of the same block of 2^sz_cl consecutive nodes is connected -/
+theorem even_spec_blocks (n mx k szcl : Nat) (ds : List Nat) {C : AMat Int n} {rest : List Nat}
+    (h : evenCIJ n mx k szcl ds = .ok (C, rest)) (hsz : szcl ≤ mx)
+    (hk1 : clusterCount n mx szcl ≤ k) (hk2 : k ≤ n * (n - 1)) :
+    (∀ i j, C.toFun i j = 0 ∨ C.toFun i j = 1) ∧ (∀ i, C.toFun i i = 0) ∧ matSum C = k ∧
+    (∀ i j : Fin n, i ≠ j → i.val / 2 ^ szcl = j.val / 2 ^ szcl → C.toFun i j = 1) := by
+  obtain ⟨hn, hmx, _⟩ := evenCIJ_core mx k szcl ds h hsz (by unfold clusterCount at hk1; exact_mod_cast hk1) hk2
+  obtain ⟨h1, h2, h3, h4⟩ := even_spec n mx k szcl ds h hsz hk1 hk2
+  exact ⟨h1, h2, h4, fun i j hij hb => h3 i j ((cluster_mask_blocks n mx szcl hmx hn hsz i j).2 ⟨hij, hb⟩)⟩
+
 /-! ### maketoeplitzCIJ -/
 
 /-- `maketoeplitzCIJ(n, k, s)`: *if it returns* (the rejection loop gives up after 10000 rounds), then
@@ -111,6 +131,56 @@ theorem toeplitz_spec (n k : Nat) (prof : List Thr) (ds : List Nat) {C : AMat In
   obtain ⟨h1, h2, h3⟩ := toeplitzCIJ_core k prof ds h
   exact ⟨fun i j => h1 (i, j), h2, h3⟩
 
+/-- the probability template is a symmetric Toeplitz matrix with zero diagonal: entry (i, j) is the profile value at
+distance |i − j| from the diagonal -/
+theorem toeplitz_template (n : Nat) (prof : Array Thr) (i j : Fin n) :
+    (toeplitzOf n prof).get i j = (if i = j then (0, 1) else prof[offset i j - 1]!) ∧
+    (∀ i' j' : Fin n, offset i j = offset i' j' → (toeplitzOf n prof).get i j = (toeplitzOf n prof).get i' j') :=
+  ⟨toeplitzOf_get prof i j, fun i' j' h => toeplitz_structure prof i j i' j' h⟩
+
+/-- `maketoeplitzCIJ` end to end: if it returns, the result has exactly K ones and is either the empty matrix (K = 0) or
+one sample `u < template` of the Toeplitz template: 0 on the diagonal, and `C[i,j] = 1` iff the uniform draw of that cell
+is below the profile value at distance |i − j|; in particular connections exist only where the profile is positive -/
+theorem toeplitz_spec_full (n k : Nat) (prof : List Thr) (ds : List Nat) {C : AMat Int n} {rest : List Nat}
+    (h : toeplitzCIJ n k prof ds = .ok (C, rest)) :
+    matSum C = k ∧
+    ((k = 0 ∧ C = zeroMat n) ∨
+     ∃ us : Array Nat, ∀ i j : Fin n, C.toFun i j =
+       if i = j then 0 else b2i (ltThr us[i.val * n + j.val]! prof.toArray[offset i j - 1]!)) ∧
+    (∀ i j : Fin n, C.toFun i j = 1 → i ≠ j ∧ 0 < (prof.toArray[offset i j - 1]!).1) := by
+  obtain ⟨h01, hdiag, hsum⟩ := toeplitzCIJ_core k prof ds h
+  have hloop := h
+  unfold toeplitzCIJ at hloop
+  split at hloop
+  · simp at hloop
+  · have hs := toepLoop_sample _ k _ _ _ _ hloop
+    have hform : ∀ us : Array Nat, ∀ i j : Fin n, (sampleLt (toeplitzOf n prof.toArray) us).toFun i j =
+        if i = j then 0 else b2i (ltThr us[i.val * n + j.val]! prof.toArray[offset i j - 1]!) := by
+      intro us i j
+      simp only [AMat.toFun, sampleLt, AMat.get_ofFn, toeplitzOf_get]
+      by_cases hij : i = j
+      · simp [hij, b2i, ltThr]
+      · simp [hij]
+    refine ⟨hsum, ?_, ?_⟩
+    · rcases hs with rfl | ⟨us, rfl⟩
+      · left
+        refine ⟨?_, rfl⟩
+        have : matSum (zeroMat n) = 0 := by
+          rw [matSum_ind (zeroMat n) (fun _ => false) (fun c => by simp [cellVal_zero])]; simp
+        rw [this] at hsum; exact_mod_cast hsum.symm
+      · exact Or.inr ⟨us, hform us⟩
+    · intro i j hone
+      rcases hs with rfl | ⟨us, rfl⟩
+      · simp [AMat.toFun, zeroMat] at hone
+      · rw [hform us i j] at hone
+        by_cases hij : i = j
+        · simp [hij] at hone
+        · simp only [hij, if_false, b2i] at hone
+          refine ⟨hij, ?_⟩
+          cases hlt : ltThr us[i.val * n + j.val]! prof.toArray[offset i j - 1]! with
+          | true => exact ltThr_pos hlt
+          | false => rw [hlt] at hone; simp at hone
+
 /-! ### makefractalCIJ -/
 
 /-- `makefractalCIJ(mx_lvl, E, sz_cl)` (positive integer E) returns `(CIJ, k)` with `k` the number of connections
@@ -121,6 +191,23 @@ theorem fractal_count (n mx szcl E : Nat) (prob : AMat Thr n) (ds : List Nat)
     kk = matSum C ∧ (∀ i j, C.toFun i j = 0 ∨ C.toFun i j = 1) ∧ (∀ i, C.toFun i i = 0) ∧ n = 2 ^ mx := by
   obtain ⟨h1, h2, h3, h4, _⟩ := fractalCIJ_core mx szcl E prob ds h
   exact ⟨h1, fun i j => h2 (i, j), h3, h4⟩
+
+/-- `makefractalCIJ` end to end (positive integer E, sz_cl ≤ mx_lvl, uniform draws < 1): the returned `k` is the number of
+ones of the returned 0/1 matrix, the diagonal is empty, N = 2^mx_lvl, **every module is fully connected** (all pairs of distinct
+nodes in the same block of 2^sz_cl consecutive nodes), and every other cell (i, j) is `1` iff its uniform draw is below a
+probability that is within 1e-12 of `1 / E^ee(i,j)`, `ee` = number of hierarchical levels above the module size separating
+i and j -/
+theorem fractal_spec (n mx szcl E : Nat) (prob : AMat Thr n) (ds : List Nat)
+    {C : AMat Int n} {kk : Int} {rest : List Nat} (h : fractalCIJ n mx szcl E prob ds = .ok (C, kk, rest))
+    (hsz : szcl ≤ mx) (hds : ∀ v ∈ ds, v < 2 ^ 53) :
+    kk = matSum C ∧ n = 2 ^ mx ∧ (∀ i j, C.toFun i j = 0 ∨ C.toFun i j = 1) ∧ (∀ i, C.toFun i i = 0) ∧
+    (∀ i j : Fin n, i ≠ j → i.val / 2 ^ szcl = j.val / 2 ^ szcl → C.toFun i j = 1) ∧
+    (∀ i j : Fin n, i ≠ j →
+      nearInvPow (prob.get i j) E (fractalEE (hierT n mx) mx szcl i j).toNat = true ∧
+      C.toFun i j = b2i (ltThr (ds.take (n * n)).toArray[i.val * n + j.val]! (prob.get i j))) := by
+  obtain ⟨h1, h2, h3, h4⟩ := fractal_count n mx szcl E prob ds h
+  exact ⟨h1, h4, h2, h3, fun i j hij hb => fractal_modules_full mx szcl E prob ds h hsz hds i j hij hb,
+    fun i j hij => fractal_prob_profile mx szcl E prob ds h i j hij⟩
 
 /-- totality: n = 2^mx ≥ 2, E ≥ 1, a probability matrix that is `1/E^ee`, and n² uniform draws ⇒ it returns -/
 theorem fractal_total (n mx szcl E : Nat) (prob : AMat Thr n) (ds : List Nat) (hmx : 1 ≤ mx) (hn : n = 2 ^ mx) (hE : E ≠ 0)
@@ -235,6 +322,17 @@ example : (evenCIJ 2 1 2 1 []).toOption = some (#v[#v[0, 1], #v[1, 0]], []) := b
 example : (fractalCIJ 4 2 1 2 #v[#v[(1, 1), (1, 1), (1, 2), (1, 2)], #v[(1, 1), (0, 1), (1, 2), (1, 2)],
                                #v[(1, 2), (1, 2), (0, 1), (1, 1)], #v[(1, 2), (1, 2), (1, 1), (0, 1)]] []).toOption = none := by
   decide +kernel
+-- recorded real run: bct.makerandCIJdegreesfixed(inv=[2, 1, 2, 1, 1], outv=[1, 2, 1, 2, 1], seed=RandomState(9)) (the repair loop is entered)
+example : (degreesFixed (n := 5) (fun i => #[2, 1, 2, 1, 1][i.val]!) (fun i => #[1, 2, 1, 2, 1][i.val]!) [5, 1, 2, 3, 0, 4, 6, 1, 6, 4, 3, 0, 2]).toOption
+    = some (#v[#v[0, 0, 0, 1, 0], #v[1, 0, 1, 0, 0], #v[1, 0, 0, 0, 0], #v[0, 0, 1, 0, 1], #v[0, 1, 0, 0, 0]], []) := by decide +kernel
+-- recorded real run: bct.makefractalCIJ(2, 3, 1, seed=RandomState(11)); prob holds the doubles 1/3**ee computed by the code
+example : (fractalCIJ 4 2 1 3 #v[#v[(0, 1), (1, 1), (6004799503160661, 18014398509481984), (6004799503160661, 18014398509481984)], #v[(1, 1), (0, 1), (6004799503160661, 18014398509481984), (6004799503160661, 18014398509481984)], #v[(6004799503160661, 18014398509481984), (6004799503160661, 18014398509481984), (0, 1), (1, 1)], #v[(6004799503160661, 18014398509481984), (6004799503160661, 18014398509481984), (1, 1), (0, 1)]]
+    [1623725007303226, 175417380613233, 4172301566658110, 6529624346755973, 3784857594082057, 4372338596847932, 115119343655513, 4389853178233467, 8483040177097276, 7663280894971817, 6574935432160360, 979407465501694, 8051572976401648, 7720559095432467, 1486968058971441, 5695558458058374]).toOption
+    = some (#v[#v[0, 1, 0, 0], #v[1, 0, 1, 0], #v[0, 0, 0, 1], #v[0, 0, 1, 0]], 5, []) := by decide +kernel
+-- recorded real run: bct.maketoeplitzCIJ(4, 5, 2.0, seed=RandomState(3)); prof = the scaled Gaussian profile the code computed (2 samples drawn)
+example : (toeplitzCIJ 4 5 [(4476767566838841, 9007199254740992), (3486510086682757, 9007199254740992), (8458701051881773, 36028797018963968)]
+    [4961146457582618, 6378428540132250, 2620236947537295, 4601126024837516, 8042951141723434, 8073090442670765, 1131171914816282, 1866677897516654, 463575355214838, 3970462095212506, 269100984359913, 4114787878308966, 5846969781895224, 2508390444721687, 6091162649130381, 5322019128686718, 216009593074890, 5033710124860429, 2335138446574701, 3738899192351193, 2553766905231001, 6243231341261543, 3967254397551784, 1412938977084594, 4905762229311845, 7028450565370178, 2759477380498544, 1999218886737832, 3494534421916165, 8434194113174519, 8790985241928829, 6056293744581904]).toOption
+    = some (#v[#v[0, 0, 1, 0], #v[1, 0, 1, 1], #v[0, 0, 0, 1], #v[0, 0, 0, 0]], []) := by decide +kernel
 -- degrees fixed: inv = outv = (1,1,1); the identity permutation forces two repairs (switch 1, then 0)
 example : (degreesFixed (n := 3) (fun _ => 1) (fun _ => 1) [0, 1, 2, 1, 0]).toOption
     = some (#v[#v[0, 0, 1], #v[1, 0, 0], #v[0, 1, 0]], []) := by decide +kernel
